@@ -86,6 +86,22 @@ func init() {
 					rec.Names = append(rec.Names, name)
 					rec.Diffs = append(rec.Diffs, imgDiff(base, r.RasterizeSolidFilter(bounded, variants[name])))
 				}
+				// an outline as a collider: RasterizeColliderSolid applies its own region filter (regions at the
+				// right / bottom edge of an image of odd size are not square) and must give the image of the
+				// unfiltered rasterisation of the same collider's solid
+				quad := model2d.NewMesh()
+				pts := []model2d.Coord{
+					model2d.XY(0.2+0.3*bw*rng.Float64(), 0.2+0.3*bh*rng.Float64()),
+					model2d.XY(0.2+0.3*bw*rng.Float64(), bh-0.2-0.3*bh*rng.Float64()),
+					model2d.XY(bw-0.02-0.3*bw*rng.Float64()*float64(id%2), bh-0.2-0.3*bh*rng.Float64()),
+					model2d.XY(bw-0.02-0.3*bw*rng.Float64()*float64(id%2), 0.2+0.3*bh*rng.Float64()),
+				}
+				for i := range pts {
+					quad.Add(&model2d.Segment{pts[i], pts[(i+1)%4]})
+				}
+				coll := model2d.MeshToCollider(quad)
+				rec.Names = append(rec.Names, "collider")
+				rec.Diffs = append(rec.Diffs, imgDiff(r.RasterizeSolid(model2d.NewColliderSolid(coll)), r.RasterizeColliderSolid(coll)))
 			})
 			out.write(rec)
 			stats["records"]++
